@@ -27,6 +27,7 @@ func cmdReplay(args []string) {
 		Label    string   `json:"label"`
 		Kind     string   `json:"kind"`
 		Vector   []string `json:"vector"`
+		Labels   []string `json:"labels"`
 	}
 	if err := json.Unmarshal(b, &rec); err != nil {
 		fatal2("%v", err)
@@ -54,7 +55,7 @@ func cmdReplay(args []string) {
 	work, _ := os.MkdirTemp(filepath.Join(verif, "out"), "replay-")
 	defer os.RemoveAll(work)
 	bt := &replay.Batch{RepoDir: repo, PkgDir: pkgDirs[pk][0], PkgName: pkgDirs[pk][1], Harnesses: names, Overlay: p.Overlay,
-		Vectors: []replay.Vector{{ID: 1, Harness: rec.Harness, Vals: rec.Vector}}, WorkDir: work}
+		Vectors: []replay.Vector{{ID: 1, Harness: rec.Harness, Vals: rec.Vector, Labels: rec.Labels}}, WorkDir: work}
 	res, _, err := bt.Run()
 	if err != nil {
 		fatal2("%v", err)
